@@ -156,3 +156,39 @@ PROPS["C03"] = dict(
     rule="cases: as C01; per realised map the direct serialisation plus the serialisations of rewrite(default), adjust_mappings(self), flatten (index maps) and the to_data_url payload; distinct = distinct (how, via, map projection); non-trivial = >= 2 tokens or an index map",
     assumptions=COMMON_ASSUMPTIONS,
 )
+
+PROPS["C04"] = dict(
+    level="model_checking",
+    level_text="The lookup algorithm of the code (binary search with an arbitrary probe inside the window, walk back over equal keys, insertion index - 1 when absent) is a TLA+ state machine and TLC checks that it refines the declarative relation LookupOK for every ordered position list (repetitions included) and every query of a bounded grid (incl. u32::MAX stand-ins). Every enumerated list is built in the real crate three ways and queried at every grid position; ordering/get_token agreement is observed for maps produced by decoding, builder, raw constructor, rewrite, flatten, adjust_mappings and reload; TLC judges every answer.",
+    level_note="'first token at that position in iteration order' is judged against the crate's own observed iteration order, as the statement says (the sort is unstable)",
+    technique="TLA+ binary-search machine refining a declarative lookup relation (MC_Lookup), TLC bounded model checking, trace validation of real lookup_token/tokens()/get_token results",
+    mc=[
+        dict(module="MC_Lookup", cfg="MC_Lookup_quick.cfg", tiers=("quick",), workers=8),
+        dict(module="MC_Lookup", cfg="MC_Lookup_thorough.cfg", tiers=("thorough",), workers=14, timeout=3400, heap="24g"),
+    ],
+    trace="Trace_Map",
+    drive=dict(quick=dict(n=300, size=4), thorough=dict(n=6000, size=12)),
+    nontrivial=lambda e: e["out"].get("k") == "ok" and ((e["op"] == "lookups" and len(e["args"]["toks"]) >= 2) or (e["op"] == "ordering" and len(e["out"]["toks"]) >= 2)),
+    corrupt=_corrupt_map,
+    rule="cases: every ordered position list of MC_Lookup (<= MaxToks tokens, repetitions) x 25 queries (grid, off-grid, u32::MAX), three construction routes; seeded random maps (<= ~100..300 tokens, heavy position sharing) and index documents, each also through rewrite / adjust_mappings / reload / flatten, ~34 queries each around tokens; distinct = distinct (map, query list); non-trivial = map with >= 2 tokens",
+    assumptions=COMMON_ASSUMPTIONS,
+)
+
+PROPS["C07"] = dict(
+    level="model_checking",
+    level_text="Range flags are part of the encoder/decoder machines (bit = segment index within the line, 6 bits per base64 digit): TLC checks on MC_Encode (WithRange) that the spec's reader recovers every flag assignment from the spec's writer, and on MC_Lookup (WithRange) that the lookup algorithm reports sc + (c - dc) exactly for range tokens hit on their own line. Every enumerated assignment is serialised/decoded by the real crate and every enumerated (map, query) is looked up; TLC judges flags after the round trip and the reported original positions; structured long lines (up to 70 tokens, bits >= 16) come from the seeded driver.",
+    level_note="bit positions are defined by EMITTED segments (the writer drops exact duplicate tokens); lookups at u32::MAX columns are judged only for >=",
+    technique="TLA+ range-bit field in the encoder/decoder machines + lookup relation, TLC bounded model checking, trace validation of real round trips and lookups",
+    mc=[
+        dict(module="MC_Encode", cfg="MC_Encode_range_quick.cfg", tiers=("quick",), workers=8),
+        dict(module="MC_Lookup", cfg="MC_Lookup_range_quick.cfg", tiers=("quick",), workers=8),
+        dict(module="MC_Encode", cfg="MC_Encode_range_thorough.cfg", tiers=("thorough",), workers=14, timeout=3400, heap="24g"),
+        dict(module="MC_Lookup", cfg="MC_Lookup_range_thorough.cfg", tiers=("thorough",), workers=14, timeout=3400, heap="24g"),
+    ],
+    trace="Trace_Map",
+    drive=dict(quick=dict(n=500, size=4), thorough=dict(n=10000, size=8)),
+    nontrivial=lambda e: e["out"].get("k") == "ok" and ((e["op"] == "lookups" and any(t[6] for t in e["args"]["toks"])) or (e["op"] == "roundtrip" and any(t[6] for t in e["args"]["p1"].get("toks", []))) ),
+    corrupt=_corrupt_map,
+    rule="cases: every flag assignment of MC_Encode/MC_Lookup with WithRange (all subsets of flags on lists of <= MaxToks tokens over the grid, empty leading lines) x all grid queries; seeded: single lines of up to 70 tokens with random flag density and neighbours on other lines, random models with range flags; distinct = distinct (op, args); non-trivial = the map has at least one range token",
+    assumptions=COMMON_ASSUMPTIONS,
+)
